@@ -1,6 +1,8 @@
 mod adapter;
 mod beh;
 mod common;
+mod dumpcheck;
+mod extra;
 mod forge;
 mod judge;
 mod session;
@@ -52,10 +54,63 @@ fn replay() {
     }
 }
 
+fn dumpcheck_cmd() {
+    install_quiet_panic_hook();
+    let stdin = std::io::stdin();
+    let lines: Vec<serde_json::Value> = stdin
+        .lock()
+        .lines()
+        .map(|l| l.unwrap())
+        .filter(|l| !l.trim().is_empty())
+        .map(|l| serde_json::from_str(&l).expect("bad dump line"))
+        .collect();
+    #[cfg(feature = "parallel")]
+    let res: Vec<dumpcheck::Res> = {
+        use rayon::prelude::*;
+        lines.par_iter().map(dumpcheck::check_line).collect()
+    };
+    #[cfg(not(feature = "parallel"))]
+    let res: Vec<dumpcheck::Res> = lines.iter().map(dumpcheck::check_line).collect();
+    let out = std::io::stdout();
+    let mut out = out.lock();
+    for r in res {
+        writeln!(out, "{}", serde_json::json!({"ok": r.ok, "class": r.class, "why": r.why})).unwrap();
+    }
+}
+
 fn main() {
     let args: Vec<String> = std::env::args().collect();
     match args.get(1).map(|s| s.as_str()) {
         Some("replay") => replay(),
+        Some("dumpcheck") => dumpcheck_cmd(),
+        Some("pst13params") => {
+            install_quiet_panic_hook();
+            let stdin = std::io::stdin();
+            let reqs: Vec<serde_json::Value> = stdin
+                .lock()
+                .lines()
+                .map(|l| l.unwrap())
+                .filter(|l| !l.trim().is_empty())
+                .map(|l| serde_json::from_str(&l).expect("bad request"))
+                .collect();
+            #[cfg(feature = "parallel")]
+            let res: Vec<serde_json::Value> = {
+                use rayon::prelude::*;
+                reqs.par_iter().map(extra::pst13params).collect()
+            };
+            #[cfg(not(feature = "parallel"))]
+            let res: Vec<serde_json::Value> = reqs.iter().map(extra::pst13params).collect();
+            for r in res {
+                println!("{}", r);
+            }
+        }
+        Some("helpers") => {
+            install_quiet_panic_hook();
+            let n: usize = args.get(2).and_then(|s| s.parse().ok()).unwrap_or(100);
+            for r in extra::helpers(n) {
+                println!("{}", r);
+            }
+        }
         _ => {
             eprintln!("usage: pcv replay < behaviours.ndjson");
             std::process::exit(2);
